@@ -1,10 +1,13 @@
 package main
 
 import (
+	"bufio"
 	"bytes"
 	"fmt"
+	"io"
 	"math/rand"
 	"sort"
+	"testing/iotest"
 
 	gots "github.com/Comcast/gots/v2"
 	"github.com/Comcast/gots/v2/packet"
@@ -117,10 +120,84 @@ func otherPacket(r *rand.Rand) packet.Packet {
 	r.Read(p[:])
 	p[0] = 0x47
 	p[3] = p[3]&0x0f | 0x10
+	switch r.Intn(8) {
+	case 0: // the PIDs next to 0, the reserved ones, the first free ones, the last ones
+		pid := []int{1, 2, 3, 4, 5, 0xe, 0xf, 0x10, 0x11, 0x1ffe, 0x1fff, 0x100, 0x1000}[r.Intn(13)]
+		p[1], p[2] = p[1]&0xe0|byte(pid>>8), byte(pid)
+	case 1: // adaptation field only / adaptation field and payload
+		if r.Intn(2) == 0 {
+			p[3], p[4] = p[3]&0x0f|0x20, 183
+		} else {
+			p[3], p[4] = p[3]&0x0f|0x30, byte(r.Intn(183))
+		}
+		if p[4] > 0 {
+			p[5] = 0
+			for i := 6; i < 5+int(p[4]); i++ {
+				p[i] = 0xff
+			}
+		}
+	}
+	if r.Intn(3) == 0 {
+		// bytes that look like packet starts (of the PAT too) inside the body: the stream is aligned, they mean nothing
+		for k := 1 + r.Intn(4); k > 0; k-- {
+			fake := [][]byte{{0x47, 0x01, 0x00, 0x10}, {0x47, 0x40, 0x00, 0x10, 0x00, 0x00, 0xb0, 0x0d, 0x00, 0x01, 0xc1, 0x00, 0x00, 0x00, 0x01, 0xe1, 0x00},
+				{0x47, 0x00, 0x00, 0x10}, {0x47, 0x1f, 0xff, 0x10}, {0x47, 0x47, 0x47, 0x47}}[r.Intn(5)]
+			at := 4 + r.Intn(184-len(fake))
+			if p[3]&0x20 != 0 {
+				continue
+			}
+			copy(p[at:], fake)
+		}
+	}
 	if p[1]&0x1f == 0 && p[2] == 0 {
 		p[2] = 1
 	}
 	return p
+}
+
+// c07Reader: the ways a caller may hand the same byte stream to a stream reader.
+var c07Readers = []string{"buffer", "bytesreader", "bufio16", "bufio188", "bufio4096", "onebyte", "chunks", "dataerr"}
+
+type chunkReader struct {
+	data []byte
+	r    *rand.Rand
+	eof  bool // the last piece is returned together with io.EOF
+}
+
+func (c *chunkReader) Read(p []byte) (int, error) {
+	if len(c.data) == 0 {
+		return 0, io.EOF
+	}
+	n := 1 + c.r.Intn(300)
+	if n > len(c.data) {
+		n = len(c.data)
+	}
+	n = copy(p, c.data[:n])
+	c.data = c.data[n:]
+	if c.eof && len(c.data) == 0 {
+		return n, io.EOF
+	}
+	return n, nil
+}
+
+func c07Reader(kind string, data []byte) io.Reader {
+	switch kind {
+	case "bytesreader":
+		return bytes.NewReader(data)
+	case "bufio16":
+		return bufio.NewReaderSize(bytes.NewReader(data), 16)
+	case "bufio188":
+		return bufio.NewReaderSize(bytes.NewReader(data), 188)
+	case "bufio4096":
+		return bufio.NewReader(bytes.NewReader(data))
+	case "onebyte":
+		return iotest.OneByteReader(bytes.NewReader(data))
+	case "chunks":
+		return &chunkReader{data: data, r: rand.New(rand.NewSource(int64(len(data))))}
+	case "dataerr":
+		return &chunkReader{data: data, r: rand.New(rand.NewSource(int64(len(data)))), eof: true}
+	}
+	return bytes.NewBuffer(data)
 }
 
 func (c07) Gen(tier string, seed int64, emit0 func([]Ev)) {
@@ -154,6 +231,16 @@ func (c07) Gen(tier string, seed int64, emit0 func([]Ev)) {
 				o := otherPacket(r)
 				st = append(st, B(o[:]))
 			}
+			if len(st) > 0 && r.Intn(3) == 0 {
+				// the very first packet has one of the reserved PIDs 4..15 and a body full of look-alike packet starts
+				var o packet.Packet
+				for i := 0; i+4 <= 188; i += 4 {
+					copy(o[i:], [][]byte{{0x47, 0x01, 0x00, 0x10}, {0x47, 0x40, 0x00, 0x10}, {0x47, 0x1f, 0xff, 0x10}}[r.Intn(3)])
+				}
+				pid := 4 + r.Intn(12)
+				o[0], o[1], o[2], o[3] = 0x47, byte(r.Intn(2))<<6, byte(pid), 0x10|byte(r.Intn(16))
+				st[0] = B(o[:])
+			}
 			tail := 0
 			if r.Intn(5) != 0 {
 				st = append(st, B(pk[:]))
@@ -167,7 +254,7 @@ func (c07) Gen(tier string, seed int64, emit0 func([]Ev)) {
 			if st == nil {
 				st = [][]int{}
 			}
-			emit([]Ev{{"op": "pat", "carrier": "stream", "abs": patEv(p), "stream": st, "tail": tail}})
+			emit([]Ev{{"op": "pat", "carrier": "stream", "abs": patEv(p), "stream": st, "tail": tail, "reader": c07Readers[r.Intn(len(c07Readers))]}})
 		}
 		p := randPAT(r, 1+r.Intn(8))
 		dup := false
@@ -243,7 +330,7 @@ func (c07) Exec(h []Ev) []Ev {
 						buf.Write(GB(x))
 					}
 					buf.Write(make([]byte, GI(e["tail"])))
-					pat, err := psi.ReadPAT(&buf)
+					pat, err := psi.ReadPAT(c07Reader(GS(e["reader"]), buf.Bytes()))
 					c07Observe(e, pat, err)
 					if err == nil && pat != nil {
 						defer held.hold(func() string { t := Ev{}; c07Observe(t, pat, nil); return jsonOf(t) })
